@@ -15,7 +15,8 @@
 (* relative to the current directory cwd), a list of input paths, a list    *)
 (* of -i patterns and a list of --file-filter patterns.  The observation is *)
 (* the sequence of names in the "Checking <name> ..." lines of one run of   *)
-(* the real binary in cwd.                                                  *)
+(* the real binary in cwd, and the file names under which the findings of   *)
+(* that run are reported (every file of a tree contains one certain bug).   *)
 (*                                                                         *)
 (* Left open (not judged), because the documentation is silent:             *)
 (*  - files whose extension cppcheck accepts without documenting it (other  *)
@@ -149,6 +150,10 @@ Judgement3(c, e, obs, ids, must, may, fileOf) ==
       twice      |-> {ids[k] : k \in {n \in DOMAIN ids : \E m \in DOMAIN ids : m < n /\ ids[m] = ids[n]}},
       badname    |-> {obs[k] : k \in {n \in known : obs[n] \notin {NameVia(e, x, fileOf[ids[n]]) : x \in e.via[fileOf[ids[n]]]}}},
       unsorted   |-> {x \in e.X : ~Sorted(TLCEval(own(x)))},
+      \* findings are reported for exactly the analysed files, under the same names
+      misreported |-> IF "reported" \in DOMAIN c
+                      THEN (ToSet(c.reported) \ ToSet(obs)) \cup (ToSet(obs) \ ToSet(c.reported))
+                      ELSE {},                                                 \* (an observation without findings)
       \* the patterns decide something: a file with a documented source extension under an input path is excluded
       deciding   |-> \E f \in e.F : e.via[f] # {} /\ ExtStatus(f) = "yes" /\ e.status[f] = "no",
       withopen   |-> must # may]
@@ -160,9 +165,10 @@ Judgement2(c, e) ==
              TLCEval([id \in {e.fid[f] : f \in e.F} |-> CHOOSE f \in e.F : e.fid[f] = id]))
 Judgement(c) == Judgement2(c, Facts(c))
 
-Fine(j) == j.missing = {} /\ j.unexpected = {} /\ j.twice = {} /\ j.badname = {} /\ j.unsorted = {}
+Fine(j) == j.missing = {} /\ j.unexpected = {} /\ j.twice = {} /\ j.badname = {} /\ j.unsorted = {} /\ j.misreported = {}
 Printable(j) == [id |-> j.id, missing |-> SetToSeq(j.missing), unexpected |-> SetToSeq(j.unexpected),
-                 twice |-> SetToSeq(j.twice), badname |-> SetToSeq(j.badname), unsorted |-> SetToSeq(j.unsorted)]
+                 twice |-> SetToSeq(j.twice), badname |-> SetToSeq(j.badname), unsorted |-> SetToSeq(j.unsorted),
+                 misreported |-> SetToSeq(j.misreported)]
 
 -----------------------------------------------------------------------------
 (* gen: the sampled case space *)
@@ -222,7 +228,7 @@ Gen(dummy) == /\ ndJsonSerialize(IOEnv.CASES, [c \in 1..Params.n |-> CaseOf(c)])
 
 -----------------------------------------------------------------------------
 (* judge *)
-\* observations: [id, cwd, files, inputs, ign, filt, checked] with all strings as they were used in the run
+\* observations: [id, cwd, files, inputs, ign, filt, checked, reported] with all strings as they were used in the run
 Obs == IF IOEnv.STEP = "judge" THEN ndJsonDeserialize(IOEnv.OBS) ELSE <<>>
 Verdicts == TLCEval([k \in DOMAIN Obs |-> Judgement(Obs[k])])
 BadCases == {k \in DOMAIN Obs : ~Fine(Verdicts[k])}
